@@ -7,6 +7,7 @@ hence under the pivot hypothesis the built pieces are C⁶ (with C⁰–C³ and 
 -/
 open ST ST.Septic
 
+namespace SepticK
 variable {K : Type} [Field K] [CharZero K]
 
 /-- **row identity**: residual of the block row of a knot = jump of derivatives (4, 5, 6) across it, with factor exactly 1 -/
@@ -160,3 +161,5 @@ theorem septic_KKT_partial (hs Ps : List K) (bL bR : V3 K) (hne : ∀ h ∈ hs, 
     · simp only [List.length_cons, List.length_append, List.length_nil]
       omega
     · simpa [mkSegs, bthomas, rows] using hu
+
+end SepticK
